@@ -345,33 +345,39 @@ Section Inv.
 End Inv.
 
 Lemma get_sampled_st_okK content w (Hok : okb w = true) (Hs : trans_ok_all w = true) c a ts s :
-  ts = content a -> InvK content w s ->
+  kerr w c = false -> ts = content a -> InvK content w s ->
   fst (get_sampled_st w c (Some a) ts s) = get_sampled w c ts /\ InvK content w (snd (get_sampled_st w c (Some a) ts s)).
 Proof.
-  intros Hc HI. unfold get_sampled_st, get_sampled.
+  intros Ek Hc HI. unfold get_sampled_st, get_sampled.
   destruct ts as [|t0 r]; [split; [reflexivity|exact HI]|].
   destruct (monotonic (t0 :: r)) eqn:Em; cbn [negb]; [|split; [reflexivity|exact HI]].
   destruct (Qltb t0 0 || Qltb (duration w) (last (t0 :: r) 0)); [split; [reflexivity|exact HI]|].
   destruct (inb c (channels w)) eqn:Ech; cbn [negb]; [|split; [reflexivity|exact HI]].
   destruct (cv w c); [split; [reflexivity|exact HI]|].
-  destruct (zdiv w c); [split; [reflexivity|exact HI]|]. destruct (kerr w c) eqn:Ek; [split; [reflexivity|exact HI]|].
+  cbv zeta. rewrite Ek.
   destruct (usample_okK content w w Hok Hs c Ech Ek [] (Some a) (t0 :: r) s eq_refl Em) as [E1 I1]; auto.
   - intros a' Ha. injection Ha as <-. exact Hc.
-  - cbn [fst snd]. rewrite E1. split; [reflexivity|exact I1].
+  - destruct (zdiv w c); [split; [reflexivity|exact I1]|].
+    cbn [fst snd]. rewrite E1. split; [reflexivity|exact I1].
 Qed.
 
+(* round 5: a call that raises KeyError (known finding C08-chain-parallel-linear-keyerror) leaves changed caches behind
+   (Hist.get_sampled_st); that the cache invariant survives such a call is NOT proved: the theorem is for histories in which
+   no asked channel raises ([kerr w c = false] for every call) *)
 Theorem history_independent_lin : forall w content calls, okb w = true -> trans_ok_all w = true ->
   (forall c a ts, In (c, a, ts) calls -> ts = content a) ->
+  (forall c a ts, In (c, a, ts) calls -> kerr w c = false) ->
   run_hist w calls [] = map (fun call => get_sampled w (fst (fst call)) (snd call)) calls.
 Proof.
-  intros w content calls Hok Hs Hcont.
+  intros w content calls Hok Hs Hcont Hkerr.
   assert (G : forall s, InvK content w s ->
             run_hist w calls s = map (fun call => get_sampled w (fst (fst call)) (snd call)) calls).
   { induction calls as [|[[c a] ts] r IH]; intros s HI; [reflexivity|].
     cbn [run_hist map fst snd].
     destruct (get_sampled_st_okK content w Hok Hs c a ts s) as [E1 I1]; auto.
+    - apply (Hkerr c a ts). cbn. auto.
     - apply (Hcont c a ts). cbn. auto.
-    - rewrite E1. f_equal. apply IH; [|exact I1]. intros c' a' ts' Hin. apply (Hcont c' a' ts'). cbn. auto. }
+    - rewrite E1. f_equal. apply IH; [| |exact I1]; intros c' a' ts' Hin; [apply (Hcont c' a' ts')|apply (Hkerr c' a' ts')]; cbn; auto. }
   apply G. intros q w' e _ Hg. cbn in Hg. discriminate.
 Qed.
 
@@ -380,5 +386,6 @@ Example history_lin_example :
                   (TChain [TParallel [(4%N, TC 7)]; TLinear [1%N; 2%N] [0%N; 1%N] [[1; 1]; [1; -1]]; TScale [(0%N, TT 1 1)]]) in
   let calls := [(3%N, 0%N, [0; 1#2]); (0%N, 0%N, [0; 1#2]); (1%N, 0%N, [0; 1#2]); (4%N, 1%N, [1#4; 1]); (0%N, 1%N, [1#4; 1]); (3%N, 0%N, [0; 1#2])] in
   okb w = true /\ trans_ok_all w = true /\ negb (linfree (TChain [TParallel [(4%N, TC 7)]; TLinear [1%N; 2%N] [0%N; 1%N] [[1; 1]; [1; -1]]])) = true /\
+  forallb (fun call => negb (kerr w (fst (fst call)))) calls = true /\
   run_hist w calls [] = map (fun call => get_sampled w (fst (fst call)) (snd call)) calls.
-Proof. split; [reflexivity|]. split; [reflexivity|]. split; [reflexivity|]. vm_compute. reflexivity. Qed.
+Proof. split; [reflexivity|]. split; [reflexivity|]. split; [reflexivity|]. split; [reflexivity|]. vm_compute. reflexivity. Qed.
